@@ -308,3 +308,71 @@ def prefix_implies(later_pat, earlier_pat):
     a = rx.Lang(later_pat)
     b = rx.Lang("(?:%s)(?:.|\\n)*" % earlier_pat)
     return rx.included(a, b)
+
+
+def reader_scenarios(ctx, rule):
+    """_coord / _rcoord followed for every combination of missing operands (partial evaluation, nothing executed).
+    -> {'coord': {(x_missing, y_missing): outcome}, 'rcoord': {(coord_missing, no_current_point): outcome}}
+    outcome: ('none',) | ('raise', name) | ('pair', [RF, RF]) | ('same',) (the absolute pair unchanged) | ('?', text)"""
+    from .algebra import RF, atom
+    from .pe import PE, K, Obj, Raised
+
+    out = {"coord": {}, "rcoord": {}}
+    fn = ctx.fn("SVGLexicalParser._coord", rule)
+    body = [x for x in fn.body if not (isinstance(x, ast.Expr) and isinstance(x.value, ast.Constant))]
+    for xm in (False, True):
+        for ym in (False, True):
+            calls = []
+
+            def hook(pe, call, xm=xm, ym=ym, calls=calls):
+                if attr_chain(call.func) == ["self", "_number"] and not call.args:
+                    calls.append(call)
+                    i = len(calls)
+                    missing = xm if i == 1 else ym
+                    return K(None) if missing else atom("N%d" % i)
+                return None
+
+            pe = PE(ctx.m, rule, "_coord", call_hook=hook)
+            try:
+                res = pe.run(body)
+            except Raised as e:
+                out["coord"][(xm, ym)] = ("raise", e.name)
+                continue
+            if res is None or res.value is None or (isinstance(res.value, ast.Constant) and res.value.value is None):
+                out["coord"][(xm, ym)] = ("none",)
+                continue
+            v = pe.ev(res.value)
+            if isinstance(v, K) and v.v is None:
+                out["coord"][(xm, ym)] = ("none",)
+            elif isinstance(v, K) and isinstance(v.v, list) and len(v.v) == 2 and all(isinstance(c, RF) for c in v.v):
+                out["coord"][(xm, ym)] = ("pair", v.v)
+            else:
+                out["coord"][(xm, ym)] = ("?", ast.unparse(res.value))
+    fn = ctx.fn("SVGLexicalParser._rcoord", rule)
+    body = [x for x in fn.body if not (isinstance(x, ast.Expr) and isinstance(x.value, ast.Constant))]
+    for cm in (False, True):
+        for nocur in (False, True):
+            def hook(pe, call, cm=cm):
+                if attr_chain(call.func) == ["self", "_coord"] and not call.args:
+                    return K(None) if cm else K([atom("C0"), atom("C1")])
+                return None
+
+            pe = PE(ctx.m, rule, "_rcoord", call_hook=hook)
+            pe.attrs["self.parser.current_point"] = K(None) if nocur else K(Obj("CUR"))
+            try:
+                res = pe.run(body)
+            except Raised as e:
+                out["rcoord"][(cm, nocur)] = ("raise", e.name)
+                continue
+            if res is None or res.value is None or (isinstance(res.value, ast.Constant) and res.value.value is None):
+                out["rcoord"][(cm, nocur)] = ("none",)
+                continue
+            v = pe.ev(res.value)
+            if isinstance(v, K) and v.v is None:
+                out["rcoord"][(cm, nocur)] = ("none",)
+            elif isinstance(v, K) and isinstance(v.v, list) and len(v.v) == 2 and all(isinstance(c, RF) for c in v.v):
+                same = v.v[0] == atom("C0") and v.v[1] == atom("C1")
+                out["rcoord"][(cm, nocur)] = ("same",) if same else ("pair", v.v)
+            else:
+                out["rcoord"][(cm, nocur)] = ("?", ast.unparse(res.value))
+    return out
